@@ -257,7 +257,7 @@ def EveryRequestEndsWhenItIsOver : Prop := ∀ o : Outcome, endsWhenOver reg Gen
     while its body is being read (time-out / connection loss / cancellation after the response headers have arrived;
     the recorded end then is the arrival of the headers).  The statement is true for both states of the code; the
     constant is regenerated from the AST of asynchronous.py. -/
-theorem request_ends_when_over_iff : EveryRequestEndsWhenItIsOver ↔ Gen.TraceHooks.endOnFailure = 2 := by
+theorem request_ends_when_over_iff : EveryRequestEndsWhenItIsOver ↔ Gen.TraceHooks.endOnFailure ≥ 2 := by
   unfold EveryRequestEndsWhenItIsOver
   constructor
   · intro h
@@ -265,6 +265,15 @@ theorem request_ends_when_over_iff : EveryRequestEndsWhenItIsOver ↔ Gen.TraceH
     simpa [endsWhenOver] using this
   · intro h o
     cases o <;> simp [endsWhenOver, h] <;> decide
+
+/-- **the current code does both**: every request ends when it is over … -/
+theorem request_ends_when_over : EveryRequestEndsWhenItIsOver :=
+  request_ends_when_over_iff.mpr (by decide)
+
+/-- … and never later: no end is recorded after a response has been received completely (in particular not after
+    the client has deserialised it), whatever the outcome class. -/
+theorem no_end_after_request_is_over : ∀ o : Outcome, noEndAfterOver Gen.TraceHooks.endOnFailure o = true := by
+  intro o; cases o <;> decide
 
 /-- what the trace hooks do guarantee: requests that are received completely or fail before the response headers
     end when they are over -/
@@ -279,6 +288,56 @@ theorem request_ends_when_over_partial :
 theorem start_recorded_at_first_signal_only :
     ∀ o : Outcome, ∀ sg ∈ signalsOf o, ((sg, HookAct.start) ∈ reg ↔ sg = .requestStart) := by
   intro o; cases o <;> decide
+
+/-! ### every wire request belongs to exactly one logical request and lies inside its recorded span -/
+
+/-- **wire_requests_inside_recorded_span**: under the hypotheses of `outer_span`, every wire request issued on behalf
+    of a context lies inside its recorded [start, end]: no start before the recorded start, no end after the
+    recorded end (multi-request runners: scroll pages + clear-scroll, point-in-time open / pages / close, composite-agg
+    pages, async search, retries of the transport …). -/
+theorem wire_requests_inside_recorded_span (evs : List CEv) (s : St) (c : Nat) (r : Rec)
+    (hrun : runCtx true evs = .ok s) (hl : s.late = false) (hc : s.ctxs c = some r) (hset : settled s c = true) :
+    (∀ t ∈ timesFor s.log true c, ∃ m, r.getStart = some m ∧ m ≤ t) ∧
+    (∀ t ∈ timesFor s.log false c, ∃ m, r.getStop = some m ∧ t ≤ m) := by
+  obtain ⟨h1, h2⟩ := outer_span evs s c r hrun hl hc hset
+  constructor
+  · intro t ht
+    cases hm : minOpt (timesFor s.log true c) with
+    | none => rw [minOpt_eq_none.mp hm] at ht; cases ht
+    | some m => exact ⟨m, by rw [h1]; exact hm, (minOpt_spec hm).2 t ht⟩
+  · intro t ht
+    cases hm : maxOpt (timesFor s.log false c) with
+    | none => rw [maxOpt_eq_none.mp hm] at ht; cases ht
+    | some m => exact ⟨m, by rw [h2]; exact hm, (maxOpt_spec hm).2 t ht⟩
+
+/-- **wire_event_belongs_to_one_request**: the contexts on whose behalf a wire event was logged contain at most one
+    top-level context (one logical request) — every trace, both code versions. -/
+theorem wire_event_belongs_to_one_request (fx : Bool) (evs : List CEv) (s : St) (hrun : runCtx fx evs = .ok s)
+    (e : LogE) (he : e ∈ s.log) (x y : Nat) (rx ry : Rec) (hx : x ∈ e.chain) (hy : y ∈ e.chain)
+    (hrx : s.ctxs x = some rx) (hry : s.ctxs y = some ry) (hpx : rx.parent = none) (hpy : ry.parent = none) :
+    x = y := by
+  have hi := lc_runFrom lc_init hrun
+  have h1 := chainOK_root_is_last hi.wf (hi.logChain e he) hx hrx hpx
+  have h2 := chainOK_root_is_last hi.wf (hi.logChain e he) hy hry hpy
+  rw [h1] at h2
+  exact Option.some.inj h2
+
+/-- **wire_after_exit_is_late**: a wire event on behalf of a context that has already exited (a clean-up request
+    started in the background on an error path, a stream that was not awaited) sets `late` — and `late` never
+    goes back (`late_mono_run`), so a run that ends with `late = false` (the hypothesis of `outer_span`, established
+    for the real runners by the correspondence check) had no HTTP request on the wire after its logical request
+    was recorded. -/
+theorem wire_after_exit_is_late (fx : Bool) (s s' : St) (τ : Nat) (b : Bool) (t : Rat) (tk : Task) (c : Nat)
+    (h : wire fx s τ b t = .ok s') (htk : s.tasks τ = some tk) (hc : c ∈ tk.chain) (hcl : isClosed s c = true) :
+    s'.late = true :=
+  wire_after_exit_is_late_aux h htk hc hcl
+
+/-- a scroll whose second page fails, with the clear-scroll request sent from a background task after the failed
+    request has been recorded: `late`. -/
+example : chk true
+    [.client 0, .open_ 0 10, .wireStart 0 1, .wireEnd 0 2, .wireStart 0 2, .wireEnd 0 4, .spawn 0 1, .close 0 true,
+     .wireStart 1 4, .wireEnd 1 5]
+    (fun s => s.late && view s 10 == some (some 1, some 5, some 1, some 5)) = true := by decide
 
 /-! ### historical: the code before fix 65587fe (`runCtx false`)
 
